@@ -141,7 +141,7 @@ def run(ctx: core.Ctx):
     gl, gm = (3, 3) if q else (3, 4)
     cfg = write_cfg("Gen_OutputVariable", "SPECIFICATION Spec\n" + consts.format(L=gl, M=gm, E="TRUE", D="FALSE")
                     + "INVARIANT EmitInv\nCHECK_DEADLOCK FALSE\n")
-    g = ctx.tlc("MC_OutputVariable", cfg, workers=1, timeout=3000)
+    g = ctx.tlc("MC_OutputVariable", cfg, workers=16, timeout=3000)
     ctx.expect_holds(g, "Gen_OutputVariable")
     behs = g.emitted
     if not behs:
